@@ -236,8 +236,11 @@ static void oplog_append(const char *s, size_t n) {
     memcpy(oplog + oplog_len, s, n); oplog_len += n;
     oplog[oplog_len++] = '\n'; oplog[oplog_len] = 0;
 }
+int vf_errno_noise_every;   /* >0: every n-th case runs with errno noise (see wrap.c) */
 void vf_case_begin(long caseno, const char *fmt, ...) {
     vf_cur_case = caseno; vf_cur_op = 0; case_viols = 0;
+    vf_errno_noise = vf_errno_noise_every > 0 && (caseno % vf_errno_noise_every) == vf_errno_noise_every / 2;
+    if (vf_errno_noise) vf_count("cases_where_successful_allocations_leave_errno_enomem", 1);
     oplog_len = 0; oplog[0] = 0;
     va_list ap; va_start(ap, fmt); vsnprintf(case_desc, sizeof case_desc, fmt, ap); va_end(ap);
     if (VF.verbose) fprintf(stderr, "== case %ld: %s\n", caseno, case_desc);
